@@ -12,11 +12,15 @@ import (
 	"gverif/engine/constx"
 	"gverif/engine/decode"
 	"gverif/engine/dspx"
+	"gverif/engine/factx"
+	"gverif/engine/flagx"
 	"gverif/engine/goproto"
 	"gverif/engine/graphinv"
+	"gverif/engine/initx"
 	"gverif/engine/loopidx"
 	"gverif/engine/matargs"
 	"gverif/engine/modset"
+	"gverif/engine/nilrecv"
 	"gverif/engine/okflow"
 	"gverif/engine/overlap"
 	"gverif/engine/paramuse"
@@ -122,6 +126,10 @@ func init() {
 			li := loopidx.Run(def, core.Pkgs(blasPkgs...))
 			li.Floor("counting_loops_with_element_stores", 300)
 			res.Merge(li)
+			fl := flagx.Run(def, core.Pkgs(blasPkgs...))
+			fl.Floor("transpose_params", 50)
+			fl.Floor("decisions", 60)
+			res.Merge(fl)
 			for _, c := range []core.Config{{}, {Tags: "noasm"}} {
 				pu := paramuse.Run(c, core.Pkgs(blasPkgs...))
 				pu.Floor("parameters", 1500)
@@ -131,6 +139,7 @@ func init() {
 			am.Floor("assembly_files", 50)
 			am.Floor("loops", 120)
 			am.Floor("loop_memory_accesses", 450)
+			am.Floor("tail_memory_accesses", 100)
 			am.Floor("byte_scalings", 40)
 			res.Merge(am)
 			ms := modset.Run(core.Config{Tags: "noasm"})
@@ -176,6 +185,7 @@ func lapackProp(self, other, what string) *property {
 			li := loopidx.Run(def, sc)
 			li.Floor("counting_loops_with_element_stores", 100)
 			res.Merge(li)
+			res.Merge(flagx.Run(def, sc))
 			res.Merge(paramuse.Run(def, core.Scope{Patterns: []string{"./lapack/gonum"}, Files: sc.Files}))
 			ok := okflow.Run(def, core.Scope{Patterns: []string{"./lapack/gonum"}, Files: sc.Files})
 			ok.Floor("status_call_sites", 10)
@@ -213,6 +223,7 @@ func init() {
 			am.Floor("assembly_files", 50)
 			am.Floor("loops", 120)
 			am.Floor("loop_memory_accesses", 450)
+			am.Floor("tail_memory_accesses", 100)
 			am.Floor("byte_scalings", 40)
 			res.Merge(am)
 
@@ -236,6 +247,10 @@ func init() {
 			r.Floor("literal_pairs", 40)
 			res.Merge(r)
 			res.Merge(loopidx.Run(def, core.Pkgs("./mat")))
+			res.Merge(flagx.Run(def, core.Pkgs("./mat")))
+			nr := nilrecv.Run(def, core.Pkgs("./mat"))
+			nr.Floor("pointer_args", 800)
+			res.Merge(nr)
 			t := twin.Run(twin.Which{Bounds: true, BoundsFamilies: []string{"mat-index"}, ReuseAs: true})
 			t.Floor("bounds_guard_sequences", 15)
 			t.Floor("reuseAs_sync_pairs", 5)
@@ -279,6 +294,7 @@ func init() {
 			am.Floor("assembly_files", 50)
 			am.Floor("loops", 120)
 			am.Floor("loop_memory_accesses", 450)
+			am.Floor("tail_memory_accesses", 100)
 			am.Floor("byte_scalings", 40)
 			res.Merge(am)
 
@@ -313,6 +329,11 @@ func init() {
 			st := stride.Run(def, core.Scope{Patterns: []string{"./mat"}, Files: func(rel string) bool { return anch[rel] }})
 			st.Floor("index_sites", 60)
 			res.Merge(st)
+			fx := factx.Run(def)
+			res.Merge(fx)
+			nr := nilrecv.Run(def, core.Scope{Patterns: []string{"./mat"}, Files: func(rel string) bool { return anch[rel] }})
+			nr.Floor("pointer_args", 200)
+			res.Merge(nr)
 			if tier == "thorough" {
 				// the same rules under the configurations the suite never builds
 				for _, c := range []core.Config{{Tags: "safe"}, {Tags: "noasm bounds"}, {GOARCH: "386"}} {
@@ -391,6 +412,10 @@ func init() {
 			g := goproto.Run(def, core.Pkgs("./optimize"))
 			g.Floor("go_statements", 3)
 			res.Merge(g)
+			in := initx.Run(def, "./optimize/...")
+			in.Floor("init_methods", 30)
+			in.Floor("state_fields", 120)
+			res.Merge(in)
 		},
 	}
 }
@@ -412,6 +437,10 @@ func init() {
 				it.Floor("iterator_types", 12)
 				res.Merge(it)
 			}
+			sb := twin.Run(twin.Which{SiblingState: []string{"graph/iterator"}})
+			sb.Floor("sibling_method_pairs", 30)
+			sb.Floor("sibling_state_updates", 20)
+			res.Merge(sb)
 			cfgs := []core.Config{{}, {Tags: "safe"}}
 			if tier == "thorough" {
 				cfgs = append(cfgs, core.Config{GOARCH: "386"}, core.Config{Tags: "safe", GOARCH: "arm64"}, core.Config{Tags: "tomita"})
@@ -435,6 +464,10 @@ func init() {
 			d.Floor("graph6_exported_methods", 14)
 			d.Floor("graph6_raw_accesses", 4)
 			res.Merge(d)
+			fs := decode.RunFields(def, "./mat", "./stat/card", "./mathext/prng", "./graph/formats/cytoscapejs", "./graph/formats/sigmajs", "./graph/formats/gexf12")
+			fs.Floor("codec_method_pairs", 20)
+			fs.Floor("codec_fields", 35)
+			res.Merge(fs)
 			cl := decode.RunClone(def, "./graph/formats/rdf", "./stat/card", "./mat", "./mathext/prng")
 			cl.Floor("clone_methods", 2)
 			res.Merge(cl)
@@ -539,18 +572,28 @@ func dump(argv []string) {
 	case "paramuse":
 		res = paramuse.Run(def, core.Pkgs(argv[1:]...))
 		res.Merge(paramuse.Run(core.Config{Tags: "noasm"}, core.Pkgs(argv[1:]...)))
+	case "init":
+		res = initx.Run(def, argv[1:]...)
+	case "fields":
+		res = decode.RunFields(def, argv[1:]...)
 	case "clone":
 		res = decode.RunClone(def, argv[1:]...)
 	case "modset":
 		res = modset.Run(core.Config{Tags: "noasm"})
 	case "asm":
 		res = asmx.Run()
+	case "flag":
+		res = flagx.Run(def, core.Pkgs(argv[1:]...))
+	case "fact":
+		res = factx.Run(def)
+	case "nilrecv":
+		res = nilrecv.Run(def, core.Pkgs(argv[1:]...))
 	case "matargs":
 		res = matargs.Run(def)
 	case "regen":
 		res = twin.RunRegen()
 	case "twin":
-		res = twin.Run(twin.Which{Generated: true, Bounds: true, ReuseAs: true, R3: true, Siblings: []string{"graph/iterator"}})
+		res = twin.Run(twin.Which{Generated: true, Bounds: true, ReuseAs: true, R3: true, Siblings: []string{"graph/iterator"}, SiblingState: []string{"graph/iterator"}})
 	case "args":
 		if argv[1] == "./lapack/gonum" {
 			res = args.Run(def, core.Pkgs(argv[1:]...), lapackArgs)
